@@ -109,7 +109,9 @@ def load_oracle(c: dict, res: dict, obs) -> List[tuple]:
     msgs_in_structs = {f["type_name"] for s in model["structs"] for f in s["fields"] if f["kind"] == "MDF"}
     L = res["load"]
     if res["compile_exc"]:
-        if "signed-char" in cs:
+        if res["compile_exc"].startswith("HANG"):
+            out.append(("hang:compile", "compile() of an accepted closure does not terminate: " + res["compile_exc"][:150]))
+        elif "signed-char" in cs:
             out.append((K_SCHAR, "compile() raised in a back end: " + res["compile_exc"][:150]))
         else:   # compile() raising anything at all after the parser accepted the closure is an internal error
             out.append(("internal:" + res["compile_exc"].split(":")[0] + ":emit", "compile() raised in a back end: " + res["compile_exc"][:200]))
@@ -130,7 +132,9 @@ def load_oracle(c: dict, res: dict, obs) -> List[tuple]:
     # ---- python
     py = L.get("py")
     if py is not None:
-        if not py["ok"]:
+        if not py["ok"] and py["err"].startswith("HANG"):
+            out.append(("hang:load-python", py["err"][:200]))
+        elif not py["ok"]:
             m = re.search(r"name '(\w+)' is not defined", py["err"])
             k = explain(m.group(1), "py", py["err"]) if m else None
             if k is None and "signed-char" in cs and "SyntaxError" in py["err"]:
@@ -146,7 +150,9 @@ def load_oracle(c: dict, res: dict, obs) -> List[tuple]:
                     out.append(("py:not-registered", f"{c2['name']} (type_id {c2['type_id']}) is not in pyrtma.message._msg_defs"))
     # ---- C
     cc = L.get("c")
-    if cc is not None and not cc["ok"]:
+    if cc is not None and not cc["ok"] and cc["err"].startswith("HANG"):
+        out.append(("hang:load-c", cc["err"][:200]))
+    elif cc is not None and not cc["ok"]:
         m = re.search(r"unknown type name .(\w+).", cc["err"])
         k = explain(m.group(1), "c", cc["err"]) if m else None
         m2 = re.search(r"in expansion of macro .(\w+).", cc["err"])
@@ -160,7 +166,9 @@ def load_oracle(c: dict, res: dict, obs) -> List[tuple]:
     # ---- javascript
     js = L.get("js")
     if js is not None:
-        if not js["ok"]:
+        if not js["ok"] and js["err"].startswith("HANG"):
+            out.append(("hang:load-js", js["err"][:200]))
+        elif not js["ok"]:
             m = re.search(r"reading '(\w+)'", js["err"])
             k = K_ALIAS_STRUCT if (m and m.group(1) in alias_targets) else None
             out.append((k or "js:import", "generated javascript module does not import: " + js["err"][:200]))
@@ -229,7 +237,9 @@ def run(chk: Check):
             if not res["is_parser_error"] and res["exc"] not in ("AssertionError", "FileNotFoundError"):
                 # an internal error on a closure of documented constructs
                 cs = source_classes(c["cl"])
-                if res["exc"] == "KeyError" and "signed-char" in cs:
+                if res["exc"] == "HANG":     # a compile that does not terminate (worker watchdog): a violation, not a harness problem
+                    key = "hang:" + str(res.get("hang") or "parse")
+                elif res["exc"] == "KeyError" and "signed-char" in cs:
                     key = K_SCHAR
                 elif res["exc"] == "TypeError" and "must be a C type" in res["msg"] and _has_alias_struct_field(c["cl"]):
                     key = K_ALIAS_FIELD
@@ -281,6 +291,12 @@ def run(chk: Check):
         "C: gcc -std=gnu11 -fsyntax-only; with import_coredefs the typedefs RTMA_types.h would supply are prepended",
         "identifiers legal in all four languages (generated names); names distinct across constants/aliases/structs/messages",
         "constant expressions reference at most 10 constants (expand_expression raises the builtin RecursionError beyond that)",
+        "constant / length expressions of the model: integer literals, constants of any file, + - *, true division by a positive literal "
+        "(`A / 2`, `(A + B) / 2`, `5 / 2`: the value is a float, the length int() of it - Gen/EmitGuards.v, translator fails closed without "
+        "the int()); floats are modelled by exact rationals, which is the implementation's arithmetic for the generated divisors (powers "
+        "of two); divisors 3, 7, a constant as divisor, // and %, float literals: implementation + oracle only (expr-div-inexact)",
+        "every stage of a case runs under a watchdog (parse 20 s, compile 40 s, loaders 120 s): a stage that does not finish is "
+        "reported as a violation `hang:<stage>` with the closure, the run goes on",
     ]
     if bad:
         codes = diagnose(FAM, [coq_cases[b] for b in bad[:4] if b >= 0])
